@@ -115,6 +115,17 @@ _strata0 = strata
 def strata(tier):  # noqa: F811
     yield from _strata0(tier)
     yield from corpus_cases(tier, "C07")
+    # conditions taking data-path arguments (alone and as one operand of a combination), over documents where nodes fail
+    from . import c02
+    pl, plain = c02._src_leaves()
+    sdoc = dict(c02.SRC_DOC, vals=list(c02.SRC_CONT), one={"value": 7, "limit": 5})
+    for i, A in enumerate(pl):
+        B = plain[i % len(plain)]
+        for cond in (A, {"c": "and", "a": A, "b": B}, {"c": "and", "a": B, "b": A}, {"c": "or", "a": A, "b": B}, {"c": "or", "a": B, "b": A},
+                     {"c": "xor", "a": A, "b": B}, {"c": "and", "a": {"c": "or", "a": B, "b": A}, "b": plain[(i + 1) % len(plain)]}):
+            for parts in ([{"p": "prim", "v": "vals"}, {"p": "list"}], [{"p": "map"}], [{"p": "prim", "v": "one"}, {"p": "prim", "v": "value"}]):
+                for cast in (None, [["str", "int"]]):
+                    yield {"rules": [{"path": PC.mkpath(parts), "cond": cond, "cast": cast}], "doc": sdoc}
     # documents with shared containers (and the empty schema: validation of ANY document never raises)
     tr = PC.L("value", "truthy")
     for rules in ([], [{"path": PC.mkpath([]), "cond": tr, "cast": None}],
